@@ -7,7 +7,7 @@
      Write(ss, f)      SubStream.WriteUnit: under Stream.mutex.RLock -- stale guard
                        (Stream.subStream # ss => return), then for every reader registered in
                        streamFormat.onDatas: Reader.push = RingBuffer.Push, which refuses when the
-                       slot at writeIndex is occupied (= Q units queued); a refusal increases
+                       slot at writeIndex is occupied (= q units queued); a refusal increases
                        outboundFramesDiscarded.
      Pull(r)           Reader.runInner: RingBuffer.Pull frees the slot and the closure (hence the
                        OnData callback) starts; the unit is `held` until the callback returns.
@@ -40,7 +40,7 @@ CONSTANTS Formats,      \* e.g. {"f1","f2"}
           Readers,      \* e.g. {"r1","r2"}
           SubChoices,   \* the subscription sets a reader may choose, e.g. {{"f1"},{"f2"},{"f1","f2"}}
           NSS,          \* number of sub-streams (publishers) that can become current, one after the other
-          Q,            \* Stream.WriteQueueSize (power of two)
+          QS,           \* the values of Stream.WriteQueueSize explored (powers of two); st.q is the one in use
           MaxWrites,    \* writes per format by current publishers
           MaxStale,     \* writes through a sub-stream that is not current (total)
           Eager
@@ -51,7 +51,9 @@ vars == <<st>>
 Phases == {"absent", "sub", "unsub", "closed", "stopped"}
 NoUnit == [f |-> "", n |-> 0, ok |-> FALSE]
 
-Init0 == [cur   |-> 1,
+Init0(q) ==
+         [q     |-> q,
+          cur   |-> 1,
           phase |-> [r \in Readers |-> "absent"],
           subs  |-> [r \in Readers |-> {}],
           reg   |-> [f \in Formats |-> {}],
@@ -85,7 +87,7 @@ WriteF(s, ss, f) ==
     THEN [Quiet(s) EXCEPT !.nst = @ + 1]                       \* stale guard: nothing happens
     ELSE LET u    == [f |-> f, n |-> s.nwr[f] + 1, ok |-> TRUE]
              to   == s.reg[f]
-             full == {r \in to : Len(s.queue[r]) >= Q}
+             full == {r \in to : Len(s.queue[r]) >= s.q}
          IN Settle([s EXCEPT
                !.nwr[f] = @ + 1,
                !.queue = [r \in Readers |-> IF r \in to \ full THEN Append(@[r], u) ELSE @[r]],
@@ -111,20 +113,45 @@ Began(s, t, r)   == t.held[r] # NoUnit /\ t.held[r] # s.held[r]
 Dropped(t, r)    == r \in t.ev.drop
 
 \* ------------------------------------------------------------------ actions
-Write(ss, f) ==
-    /\ ss \in 1..NSS /\ ss <= st.cur                       \* a publisher that exists(ed)
-    /\ IF ss = st.cur THEN st.nwr[f] < MaxWrites ELSE st.nst < MaxStale
-    /\ st' = WriteF(st, ss, f)
-Pull(r)          == ~Eager /\ CanPull(st, r) /\ st' = PullF(st, r)
-Done(r)          == st.held[r] # NoUnit /\ st' = DoneF(st, r)
-CallbackError(r) == st.held[r] # NoUnit /\ st' = ErrF(st, r)
-AddReader(r, S)  == st.phase[r] = "absent" /\ st' = AddF(st, r, S)
-RemoveBegin(r)   == st.phase[r] = "sub" /\ st' = RemBeginF(st, r)
-RemoveClose(r)   == st.phase[r] = "unsub" /\ st' = CloseF(st, r)
-RemoveEnd(r)     == st.phase[r] = "closed" /\ st.held[r] = NoUnit /\ st' = RemEndF(st, r)
-Switch           == st.cur < NSS /\ st' = SwitchF(st)
+\* an action is a record [a, ss, f, r, S] (unused fields: 0, "", {})
+A(name, ss, f, r, S) == [a |-> name, ss |-> ss, f |-> f, r |-> r, S |-> S]
 
-Init == st = Init0
+Guard(s, x) ==
+    CASE x.a = "Write"         -> /\ x.ss \in 1..NSS /\ x.ss <= s.cur     \* a publisher that exists(ed)
+                                  /\ IF x.ss = s.cur THEN s.nwr[x.f] < MaxWrites ELSE s.nst < MaxStale
+      [] x.a = "Pull"          -> ~Eager /\ CanPull(s, x.r)
+      [] x.a = "Done"          -> s.held[x.r] # NoUnit
+      [] x.a = "CallbackError" -> s.held[x.r] # NoUnit
+      [] x.a = "AddReader"     -> s.phase[x.r] = "absent"
+      [] x.a = "RemoveBegin"   -> s.phase[x.r] = "sub"
+      [] x.a = "RemoveClose"   -> s.phase[x.r] = "unsub"
+      [] x.a = "RemoveEnd"     -> s.phase[x.r] = "closed" /\ s.held[x.r] = NoUnit
+      [] x.a = "Switch"        -> s.cur < NSS
+
+Apply(s, x) ==
+    CASE x.a = "Write"         -> WriteF(s, x.ss, x.f)
+      [] x.a = "Pull"          -> PullF(s, x.r)
+      [] x.a = "Done"          -> DoneF(s, x.r)
+      [] x.a = "CallbackError" -> ErrF(s, x.r)
+      [] x.a = "AddReader"     -> AddF(s, x.r, x.S)
+      [] x.a = "RemoveBegin"   -> RemBeginF(s, x.r)
+      [] x.a = "RemoveClose"   -> CloseF(s, x.r)
+      [] x.a = "RemoveEnd"     -> RemEndF(s, x.r)
+      [] x.a = "Switch"        -> SwitchF(s)
+
+Do(x) == Guard(st, x) /\ st' = Apply(st, x)
+
+Write(ss, f)     == Do(A("Write", ss, f, "", {}))
+Pull(r)          == Do(A("Pull", 0, "", r, {}))
+Done(r)          == Do(A("Done", 0, "", r, {}))
+CallbackError(r) == Do(A("CallbackError", 0, "", r, {}))
+AddReader(r, S)  == Do(A("AddReader", 0, "", r, S))
+RemoveBegin(r)   == Do(A("RemoveBegin", 0, "", r, {}))
+RemoveClose(r)   == Do(A("RemoveClose", 0, "", r, {}))
+RemoveEnd(r)     == Do(A("RemoveEnd", 0, "", r, {}))
+Switch           == Do(A("Switch", 0, "", "", {}))
+
+Init == st \in {Init0(q) : q \in QS}
 Next == \/ \E ss \in 1..NSS, f \in Formats : Write(ss, f)
         \/ \E r \in Readers : Pull(r)
         \/ \E r \in Readers : Done(r)
@@ -167,14 +194,14 @@ SkipOnlyWhenFull(occ0, c0, c1, q) == c1 # c0 => (c1 = c0 + 1 /\ occ0 = q)
 AllReceived(nw, nd, c) == nw = nd + c
 
 \* --- the same formulas on the model, step by step (owed = nw - nd - c, maintained incrementally)
-PropAccounted == \A r \in Readers : Accounted(st.owed[r], 0, 0, Q)
+PropAccounted == \A r \in Readers : Accounted(st.owed[r], 0, 0, st.q)
 PropExact     == \A r \in Readers : st.owed[r] = Len(st.queue[r])   \* written = delivered + queued + discarded
 PropAllReceived ==
     \A r \in Readers : (st.phase[r] = "sub" /\ ~st.dead[r] /\ st.held[r] = NoUnit /\ st.queue[r] = <<>>)
                           => AllReceived(st.owed[r], 0, 0)
 PropStoppedQuiet == \A r \in Readers : st.phase[r] = "stopped" => (st.held[r] = NoUnit /\ st.queue[r] = <<>>)
 TypeOK == /\ st.cur \in 1..NSS
-          /\ \A r \in Readers : st.phase[r] \in Phases /\ Len(st.queue[r]) <= Q
+          /\ \A r \in Readers : st.phase[r] \in Phases /\ Len(st.queue[r]) <= st.q
           /\ \A f \in Formats : st.reg[f] = {r \in Readers : st.phase[r] = "sub" /\ f \in st.subs[r]}
 
 \* action properties: each callback begun extends the reader's history consistently with the statement
@@ -186,13 +213,13 @@ StepOnlyOrder ==
              /\ InOrderOnce(<<prev, u>>)]_vars
 StepSkipOnlyWhenFull ==
     [][\A r \in Readers :
-         SkipOnlyWhenFull(st.owed[r], 0, IF Dropped(st', r) THEN 1 ELSE 0, Q)]_vars
+         SkipOnlyWhenFull(st.owed[r], 0, IF Dropped(st', r) THEN 1 ELSE 0, st.q)]_vars
 StepNoCallbackAfterEnd ==
     [][\A r \in Readers : st.phase[r] = "stopped" => (~Began(st, st', r) /\ st'.phase[r] = "stopped")]_vars
 
 \* ------------------------------------------------------------------ view for the replay graph
 \* implementation state without histories (units are replaced by their formats)
-ImplView == [cur |-> st.cur, phase |-> st.phase, subs |-> st.subs,
+ImplView == [q |-> st.q, cur |-> st.cur, phase |-> st.phase, subs |-> st.subs,
              queue |-> [r \in Readers |-> [k \in 1..Len(st.queue[r]) |-> st.queue[r][k].f]],
              held |-> [r \in Readers |-> st.held[r].f],
              dead |-> st.dead, nwr |-> st.nwr, nst |-> st.nst]
